@@ -41,6 +41,7 @@ type Ctx struct {
 	rules     map[string]int
 	Extra     map[string]interface{}
 	ruleMap   map[string]string
+	keep      func(construct, detail string) bool // with an imported rule set: which of its obligations matter here
 }
 
 func newCtx(w *World, prop, tier string) *Ctx {
@@ -56,7 +57,21 @@ func (c *Ctx) WithRules(m map[string]string, f func()) {
 	f()
 }
 
+// WithRulesKept is WithRules restricted to the imported obligations that keep accepts; it returns how many were kept.
+func (c *Ctx) WithRulesKept(m map[string]string, keep func(construct, detail string) bool, f func()) int {
+	oldKeep, n := c.keep, len(c.Obs)
+	c.keep = func(construct, detail string) bool {
+		return (oldKeep == nil || oldKeep(construct, detail)) && keep(construct, detail)
+	}
+	defer func() { c.keep = oldKeep }()
+	c.WithRules(m, f)
+	return len(c.Obs) - n
+}
+
 func (c *Ctx) add(rule, construct, pos, status, detail string, nontrivial bool) {
+	if c.keep != nil && !c.keep(construct, detail) {
+		return
+	}
 	if r, ok := c.ruleMap[rule]; ok {
 		rule = r
 	}
